@@ -43,13 +43,47 @@ func c14Profile() string {
 func c14Names() []string { return []string{"v1", "v2"} }
 
 type c14Loc struct {
-	Range [4]string
-	URI   string
+	Range  [4]string
+	URI    string
 	HasURI bool
+}
+
+// c14BuildMany: N failing target nodes, each with its own source map (size thresholds in the lexical indexing);
+// node i is declared in file i%3, every third node has no node-level entry.
+func c14BuildMany(n int) (*Graph, string, map[string]*c14Loc) {
+	g := &Graph{}
+	exp := map[string]*c14Loc{}
+	busi := g.Add(EX+"BaseUnitSourceInformation", docNS+"BaseUnitSourceInformation")
+	busi.P(docNS+"rootLocation", c14Files[0])
+	locs := []*GNode{nil, g.Add(EX+"BaseUnitSourceInformation/location_0", docNS+"LocationInformation"), g.Add(EX+"BaseUnitSourceInformation/location_1", docNS+"LocationInformation")}
+	for f := 1; f <= 2; f++ {
+		locs[f].P(docNS+"location", c14Files[f])
+		busi.P(docNS+"additionalLocations", Ref(locs[f].ID))
+	}
+	for i := 0; i < n; i++ {
+		id := fmt.Sprintf("%sm%d", EX, i)
+		node := g.Add(id, EX+"T")
+		if i%3 != 2 {
+			sm := g.Add(id+"/source-map", smNS+"SourceMap")
+			e := g.Add(id + "/source-map/lexical/element_0")
+			r := [4]string{fmt.Sprint(i), fmt.Sprint(i + 1000), fmt.Sprint(i + 1), fmt.Sprint(2*i + 7)}
+			e.P(smNS+"element", id).P(smNS+"value", fmt.Sprintf("[(%s,%s)-(%s,%s)]", r[0], r[1], r[2], r[3]))
+			sm.P(smNS+"lexical", Ref(e.ID))
+			node.P(smNS+"sources", Ref(sm.ID))
+			exp[id] = &c14Loc{Range: r, URI: c14Files[i%3], HasURI: true}
+		}
+		if i%3 != 0 {
+			locs[i%3].P(docNS+"elements", Ref(id))
+		}
+	}
+	return g, g.FlatJSONLD(), exp
 }
 
 // c14Build renders the document and returns the expected location per node id.
 func c14Build(cs c14Case) (*Graph, string, map[string]*c14Loc) {
+	if cs.Mode == "many" {
+		return c14BuildMany(cs.NodeMask)
+	}
 	g := &Graph{}
 	id := func(s string) string { return EX + s }
 	g.Add(id("t0"), EX+"T")
@@ -188,6 +222,12 @@ func c14GenCases(tier string, emit func(c14Case)) {
 		}
 	}
 	emit(c14Case{Mode: "nosm", Ranges: def, Files: c14DefaultFiles})
+	// size axis: 1..70 source maps (NodeMask carries the node count)
+	for n := 1; n <= 70; n++ {
+		if tier == "thorough" || n <= 4 || n%8 == 0 || n == 31 || n == 33 || n == 65 {
+			emit(c14Case{Mode: "many", NodeMask: n})
+		}
+	}
 }
 
 // ---- documents shared with C12 ----
@@ -226,7 +266,7 @@ func c14NamedDoc(name string) (*Graph, string) {
 func init() {
 	Register(Meta{
 		ID: "C14", Level: "exploration",
-		Rule: "AMF-shaped source maps generated for a 6-node skeleton (2 nodes failing at top level, 1 failing through a nested child so a sub-result and its trace carry the child's location, passing nodes): axis R = every 4-tuple (start line/column, end line/column) over a magnitude alphabet (0 .. 2^31 .. 2^53+1 [.. 10^20]); axis F = every assignment of nodes to {root file, 2 additional files} (1 or several additional locations, 1 or several elements each); axis E = every subset of nodes having a node-level entry x property-level-only entries, with and without BaseUnitSourceInformation; and no source maps. Oracle: location present iff node-level entry, numbers equal as decimal strings, uri = declaring file; and the report equals the source-map-free report once all location members are deleted. Non-trivial = document where at least one reported node has a location and one does not, or any axis-R/F case with locations; distinct by document text.",
+		Rule:        "AMF-shaped source maps generated for a 6-node skeleton (2 nodes failing at top level, 1 failing through a nested child so a sub-result and its trace carry the child's location, passing nodes): axis R = every 4-tuple (start line/column, end line/column) over a magnitude alphabet (0 .. 2^31 .. 2^53+1 [.. 10^20]); axis F = every assignment of nodes to {root file, 2 additional files} (1 or several additional locations, 1 or several elements each); axis E = every subset of nodes having a node-level entry x property-level-only entries, with and without BaseUnitSourceInformation; and no source maps. Oracle: location present iff node-level entry, numbers equal as decimal strings, uri = declaring file; and the report equals the source-map-free report once all location members are deleted. Non-trivial = document where at least one reported node has a location and one does not, or any axis-R/F case with locations; distinct by document text.",
 		Assumptions: []string{"one lexical entry per node (AMF emits one)"},
 	}, func(tier string, emit func(c14Case)) { c14GenCases(tier, emit) }, c14Run)
 }
@@ -296,8 +336,17 @@ func c14Run(c *Ctx, cs c14Case) {
 		c.Violate("C14 report not JSON", err.Error(), nil)
 		return
 	}
+	baseline := c14Baseline
+	if cs.Mode == "many" {
+		plain := &Graph{}
+		for i := 0; i < cs.NodeMask; i++ {
+			plain.Add(fmt.Sprintf("%sm%d", EX, i), EX+"T")
+		}
+		rb := ValidateCompiled(c14Query, plain.FlatJSONLD())
+		baseline, _ = canonStripped(rb.Report)
+	}
 	// differential: otherwise unaffected
-	if st, _ := canonStripped(res.Report); st != c14Baseline {
+	if st, _ := canonStripped(res.Report); st != baseline {
 		c.Violate("C14 source maps change more than the location members", "with:\n"+tailStr(st, 2500)+"\nwithout:\n"+tailStr(c14Baseline, 2500), nil)
 	}
 	nres, withLoc, withoutLoc := 0, 0, 0
@@ -371,7 +420,7 @@ func c14Run(c *Ctx, cs c14Case) {
 	for i, r := range rep.Results {
 		walkResult(r.Raw, fmt.Sprintf("/result/%d", i))
 	}
-	if nres < 4 {
+	if nres < 4 && cs.Mode != "many" || cs.Mode == "many" && nres != cs.NodeMask {
 		bad("fewer results than the skeleton produces", "results+subresults=%d", nres)
 	}
 	if withLoc > 0 && (withoutLoc > 0 || cs.PropMask == 0) {
